@@ -285,7 +285,10 @@ func (c *SessionCache) InvalidateExpired() int {
 	count := 0
 
 	for id, entry := range c.sessions {
-		if !entry.expiration.IsZero() && now.After(entry.expiration) {
+		// expiration is guarded by the entry's own lock (RenewLease writes it from
+		// other goroutines); the cache lock alone does not cover it.
+		exp := entry.Expiration()
+		if !exp.IsZero() && now.After(exp) {
 			delete(c.sessions, id)
 			count++
 		}
@@ -319,8 +322,9 @@ func (c *SessionCache) DebugDump() string {
 	b.WriteString("sessions:\n")
 	for id, entry := range c.sessions {
 		exp := "never"
-		if !entry.expiration.IsZero() {
-			exp = entry.expiration.Format(time.RFC3339Nano)
+		// read expiration once, under the entry's lock (see InvalidateExpired)
+		if t := entry.Expiration(); !t.IsZero() {
+			exp = t.Format(time.RFC3339Nano)
 		}
 		fmt.Fprintf(&b, "- id=%s addr=%s tag=%s lease=%s exp=%s\n", id, entry.addr, entry.tag, entry.lease, exp)
 	}
